@@ -71,6 +71,15 @@ def catalogue(big=False):
                                 call("R", binds={"xs": ref("A", "y")})],
                                {"o": ref("A", "y"), "n": ref("R", "n")})], "TOP", {"xs": [10, 11]}))
 
+    # 4b. a mapped stage (static and run-time forks) next to a stage that does not depend on it
+    P.append(program("map_and_indep", [], [S_const("G", "int[] ys", {"ys": [4, 5, 6]}), S_echo("A"), S_echo("D"), S_echo("B")],
+                     [pipeline("TOP", "int[] xs, int x", "int[] o, int[] p, int q",
+                               [call("A", binds={"x": split(self_("xs"))}, mode="array"),
+                                call("G"),
+                                call("D", binds={"x": split(ref("G", "ys"))}, mode="array"),
+                                call("B", binds={"x": self_("x")})],
+                               {"o": ref("A", "y"), "p": ref("D", "y"), "q": ref("B", "y")})], "TOP", {"xs": [10, 11], "x": 3}))
+
     # 5. map over an array only known at run time (0, 1, 2 elements; null)
     for nm, val in (("dyn2", [4, 5]), ("dyn1", [9]), ("dyn0", []), ("dynnull", None)):
         P.append(program("map_" + nm, [], [S_const("G", "int[] ys", {"ys": val}), S_echo("A"),
